@@ -155,6 +155,8 @@ class Executor:
             return sv
         if ty is ANY:
             return SV(ANY, fresh('any', ANY.sort()))
+        if isinstance(ty, TFun) and (isinstance(sv.t, TFun) or sv.t is ANY):
+            return SV(ty, fresh('fn', ty.sort()))     # function values are opaque: only their identity matters
         if ty is REAL and sv.t is INT:
             return SV(REAL, z3.ToReal(sv.z))
         if ty is REAL and sv.t is BOOL:
@@ -668,7 +670,9 @@ class Executor:
         return bind(self.ev_list(list(e.keys) + list(e.values), st), f)
 
     def ev_Lambda(self, e, st):
-        raise Unbound('lambda value (line %s)' % e.lineno)
+        # a lambda is an opaque function value (never called by verified code except through a TFun contract)
+        t = TFun('lambda')
+        return [Res(st, SV(t, fresh('lambda', t.sort())))]
 
     def ev_JoinedStr(self, e, st):
         # f-strings only feed log/error messages: opaque string
